@@ -64,8 +64,11 @@ def gen_doc_pair(rng):
                 sn["c"], dn["c"] = {"x": {"q": 10}}, {"x": {"q": 20, "r": 0}}
         s["n"], d["n"] = sn, dn
         if shape == "mixed":
-            if rng.random() < 0.5:
+            r = rng.random()
+            if r < 0.35:
                 s["m"], d["m"] = 5, {"x": 1}
+            elif r < 0.7:
+                s["m"], d["m"] = {"x": 1}, rng.choice([5, "abc", [1], None])
             else:
                 s["m"], d["m"] = "s", 7
     return s, d
@@ -427,6 +430,7 @@ class Run:
         snap_s0 = snapshot(sp_, mtimes=True)
         snap_d0 = snapshot(dp_, mtimes=True)
         exp, conflicts = self.expected(ms, md)
+        self._exp = exp
         want_exc = sorted({c[0] for c in conflicts})
         # copies for the comparisons C15 needs
         real_copy = self.clone_pair("_real") if o["dry_run"] else None
@@ -554,9 +558,13 @@ class Run:
         """An exception class the properties do not speak about (e.g. TypeError on a mapping-vs-scalar
         document conflict): documents must still be rolled back."""
         self.probe("other_exception_" + got)
+        exp = getattr(self, "_exp", None)
         for jid, j in md["jobs"].items():
+            merged = exp["jobs"].get(jid, j)["doc"] if exp else j["doc"]
+            # documents handled before the abort may be completely merged; the one that raised must be
+            # rolled back; nothing in between
             if jid in ma["jobs"] and not same(ma["jobs"][jid]["doc"], j["doc"]) and \
-                    not self.doc_ok_partial(j["doc"], ma["jobs"][jid]["doc"]):
+                    not same(ma["jobs"][jid]["doc"], merged):
                 self.v("C14", "C14:document-not-rolled-back",
                        f"the sync raised {got} and left document of {jid[:8]} as {ma['jobs'][jid]['doc']}, "
                        f"before: {j['doc']}", "C14:document-not-rolled-back-after-" + got)
